@@ -32,12 +32,12 @@ theorem distinctVars_complete (vals : List Clause) :
 theorem parse_print (vals : List Clause) (nv sup : Nat) (h : ClausesOK vals) :
     parseCnfFile (unigenLines vals nv (rangeSupport sup))
       = .ok { clauses := vals.reverse, sampling := rangeSupport sup, nvars := (nv : Int) } := by
-  sorry
+  exact parseCnfFile_unigen vals nv sup h
 
 /-- The DIMACS reader in front of pycryptosat recovers the same clauses. -/
 theorem pycrypto_parse_print (vals : List Clause) (nv sup : Nat) (h : ClausesOK vals) :
     parsePycrypto (unigenLines vals nv (rangeSupport sup)) = .ok (vals.reverse, (nv : Int)) := by
-  sorry
+  exact parsePycrypto_unigen vals nv (rangeSupport sup) h
 
 /-- `update_file` on a file the library wrote: header count + 1, and the
     re-parsed file has the old clauses plus the negated solution. -/
@@ -47,7 +47,7 @@ theorem update_parse (vals : List Clause) (nv sup : Nat) (sol : List Int) (h : C
       ls'.head? = some (headerLine nv (vals.length + 1)) ∧
       parseCnfFile ls' = .ok { clauses := vals.reverse ++ [sol.map (fun x => -x)],
                                sampling := rangeSupport sup, nvars := (nv : Int) } := by
-  sorry
+  exact update_unigen vals nv sup sol h hs
 
 /-- The added clause excludes exactly the assignments that agree with the
     previous solution on its variables, and nothing else. -/
